@@ -392,6 +392,8 @@ def followup(r):
         if t in times and ticks(r.duration) == t and len(r) == n + 1:
             return [["followup", "shared-event-object" if shared else "ok"]]
         return [["followup", "misplaced", t, times, "shared-event-object" if shared else "distinct-objects"]]
+    except ZeroDivisionError:
+        return []   # curve-shape underflow (see envhist): outside the modelled range
     except Exception as exc:  # noqa
         return [["followup", "raised", type(exc).__name__]]
 
@@ -433,6 +435,43 @@ def run(case):
             out.append(changed)
         if stale:
             out.append(stale)
+        return out
+    if k == "envhist":
+        # a history of in-place edits on ONE envelope object; every step is compared with an independent rebuild of
+        # the state before it (so a step is judged like a single edit), the follow-up probe runs after the last step
+        e = build(case[1])
+        out = ["envhist"]
+        for op in case[2:]:
+            prev_snap = snap(e)
+            prev_snap[0] = case[1][0]
+            try:
+                if op[0] == "sample_at":
+                    r = e.sample_at(T(op[1]), append_duration=T(op[2]))
+                elif op[0] == "extend_until":
+                    r = e.extend_until(T(op[1]))
+                elif op[0] == "cut_out":
+                    r = e.cut_out(T(op[1]), T(op[2]))
+                elif op[0] == "cut_off":
+                    r = e.cut_off(T(op[1]), T(op[2]))
+                else:
+                    raise ValueError(op)
+            except Exception as exc:  # noqa
+                out.append(err(exc))
+                return out
+            try:
+                step = ["ok", snap(r), ["grid"] + op_grid(build(prev_snap), r, op)]
+            except ZeroDivisionError:
+                # a share of a share of a curve shape can fall below 1e-16: exp(c) - 1 == 0.0 and value_at divides by it.
+                # Outside the modelled range (binary64 taken as real arithmetic): the step is reported without a grid.
+                step = ["ok", snap(r), ["grid"], ["underflow"]]
+            if r is not e:
+                step.append(["not-in-place"])
+            if len(set(map(id, r))) != len(r):
+                step.append(["followup", "shared-event-object-in-result"])
+            out.append(step)
+            e = r
+        if len(out) > 1 and ["underflow"] not in out[-1]:
+            out[-1] = out[-1] + followup(e)
         return out
     if k == "envop":
         e = build(case[1])
